@@ -223,6 +223,9 @@ func c03Suite[T comparable](c *core.Ctx, hw *core.HangWatch, tname string, alpha
 		in := []*guarded[T]{g}
 		desc := func(extra string) func() string {
 			return func() string {
+				if n > 40 {
+					return fmt.Sprintf("list of %d elements starting %v (spare capacity %d filled with %v) %s", n, vals[:12], spare, sent, extra)
+				}
 				return fmt.Sprintf("list=%v (nil=%v, spare capacity %d filled with %v) %s", vals, isNil, spare, sent, extra)
 			}
 		}
@@ -245,6 +248,8 @@ func c03Suite[T comparable](c *core.Ctx, hw *core.HangWatch, tname string, alpha
 			{"true", func(T, int) bool { return true }}, {"false", func(T, int) bool { return false }},
 			{"is0", func(x T, _ int) bool { return e.idx(x) == 0 }}, {"evenIndex", func(_ T, i int) bool { return i%2 == 0 }},
 			{"idxSumOdd", func(x T, i int) bool { return (e.idx(x)+i)%2 == 1 }},
+			{"idxGeHalf", func(_ T, i int) bool { return i >= n/2 }}, {"idxMod3is1", func(_ T, i int) bool { return i%3 == 1 }},
+			{"idxIsLast", func(_ T, i int) bool { return i == n-1 }},
 		}
 		xforms := []struct {
 			name string
@@ -436,7 +441,19 @@ func c03Suite[T comparable](c *core.Ctx, hw *core.HangWatch, tname string, alpha
 			}, desc("item="+fmt.Sprint(a)))
 		}
 		// count-parameter helpers, every count in [-3, len+3]
-		for k := -3; k <= n+3; k++ {
+		counts := make([]int, 0, n+7)
+		if n <= 80 {
+			for k := -3; k <= n+3; k++ {
+				counts = append(counts, k)
+			}
+		} else {
+			// long lists: the ends, the middle and the neighbourhood of powers of two
+			counts = append(counts, -3, -1, 0, 1, 2, 3, n/2, n-3, n-2, n-1, n, n+1, n+3)
+			for p2 := 64; p2 < n; p2 *= 4 {
+				counts = append(counts, p2-1, p2, p2+1)
+			}
+		}
+		for _, k := range counts {
 			k := k
 			pc := paramClass(k, n)
 			e.check("Drop", pc, in, func() bool {
@@ -764,7 +781,7 @@ func init() {
 		Meta: func(c *core.Ctx) core.Meta {
 			return core.Meta{
 				Level: "exploration",
-				Rule: "differential against an independent model of each helper: every list of length 0..L over a 3-symbol alphabet plus nil (L=5 quick, 7 thorough) and PRNG lists up to length 64, for element types int, string and struct; every count/size in [-3, len+3]; predicate/transformer/key families; all pairs of lists up to length 3 for the binary helpers; Range over lo,hi in [-3,4] x hop; " +
+				Rule: "differential against an independent model of each helper: every list of length 0..L over a 3-symbol alphabet plus nil (L=5 quick, 7 thorough) and PRNG lists up to length 64, plus long lists (1023..3000 elements, thorough 70000; counts sampled at the ends, the middle and around powers of two; index-sensitive predicates), for element types int, string and struct; every count/size in [-3, len+3]; predicate/transformer/key families; all pairs of lists up to length 3 for the binary helpers; Range over lo,hi in [-3,4] x hop; " +
 					"each input sits in a backing array with sentinel-filled spare capacity that is compared with a snapshot after the call. distinct_nontrivial = enumerated (helper, input, parameter) cases with a non-empty input (distinct by construction)",
 				Assumptions: []string{"degenerate parameters follow the code's explicit guards where the doc comment is silent (list in DESIGN.md C03); DropLast(n<=0) drops nothing",
 					"nil predicates only for the helpers that document them (Every, Some, DropWhile)", "Drop/Take/TakeLast/DropLast/Tail may alias the input (only 'input unmodified' is required)"},
@@ -787,6 +804,18 @@ func init() {
 				return out
 			}
 			ex := mkExtra(c.Pick(40, 4000))
+			// long lists (beyond any plausible block / chunk size of an implementation)
+			longLens := []int{1023, 1025, 1100, 2049, 3000}
+			if c.Thorough() {
+				longLens = append(longLens, 4097, 5000, 70000)
+			}
+			for _, n := range longLens {
+				l := make([]int, n)
+				for j := range l {
+					l[j] = rng.Intn(3)
+				}
+				ex = append(ex, l)
+			}
 			c03Suite(c, hw, "int", []int{0, 1, 2}, -77, maxLen, ex, 3)
 			c03Suite(c, hw, "int", []int{0, 1, 2}, -77, maxLen, nil, 0)
 			var exs [][]string
